@@ -152,6 +152,13 @@ def sweep_table(tname, tab):
             must_raise("C08:invalid-accepted:isotope-string", "%s table.isotope(%r)" % (tname, bad), lambda: tab.isotope(bad), (ValueError,), table=tname, input=bad)
         for bad in sorted(set([name.capitalize(), name.upper(), name + "s", name[:-1], sym, " " + name]) - set(NAME2Z) - set(["deuterium", "tritium"])):
             must_raise("C08:invalid-accepted:name", "%s table.name(%r)" % (tname, bad), lambda: tab.name(bad), (ValueError,), table=tname, input=bad)
+        # a name is not a symbol (and 'A-name' is not an isotope string)
+        for bad in sorted(set([name, name.capitalize()]) - set(SYM2Z) - set(ALIAS)):
+            must_raise("C08:invalid-accepted:symbol", "%s table.symbol(%r)" % (tname, bad), lambda: tab.symbol(bad), (ValueError,), table=tname, input=bad)
+            must_raise("C08:invalid-accepted:isotope-string", "%s table.isotope(%r)" % (tname, bad), lambda: tab.isotope(bad), (ValueError,), table=tname, input=bad)
+            for A in sorted(ISOS[z])[:1]:
+                s_bad = "%d-%s" % (A, bad)
+                must_raise("C08:invalid-accepted:isotope-string", "%s table.isotope(%r)" % (tname, s_bad), lambda: tab.isotope(s_bad), (ValueError,), table=tname, input=s_bad)
         # isotopes
         isos = attempt(lambda: list(el))
         if isinstance(isos, Exception):
@@ -262,6 +269,22 @@ def bad_charges(ions):
     return [q for q in range(-6, 10) if q not in ions]
 
 
+def dropped_table():
+    """atoms of a private table the caller no longer holds: they still name their table, and pickling or copying
+    them must give the same objects back"""
+    import gc
+
+    def make():
+        t = core.PeriodicTable("dropped")
+        mass.init(t)
+        return [("dropped[26]", t[26]), ("dropped[26][56]", t[26][56]), ("dropped[26].ion[2]", t[26].ion[2]),
+                ("dropped[26][56].ion[3]", t[26][56].ion[3]), ("dropped.D", t.D), ("dropped[0]", t[0])]
+    atoms = make()
+    gc.collect()
+    for expr, x in atoms:
+        roundtrip("dropped", x, expr)
+
+
 def direct_sweep():
     for tname, tab in TABLES.items():
         try:
@@ -269,6 +292,14 @@ def direct_sweep():
         except Exception as e:  # noqa
             fail("C08:sweep-raises", "sweep of the %s table raised %s: %s" % (tname, type(e).__name__, e),
                  table=tname, trace=traceback.format_exc()[-800:])
+    for a_name in ("deuterium", "tritium"):
+        for tname, tab in TABLES.items():
+            must_raise("C08:invalid-accepted:symbol", "%s table.symbol(%r)" % (tname, a_name), lambda: tab.symbol(a_name), (ValueError,), table=tname, input=a_name)
+            must_raise("C08:invalid-accepted:isotope-string", "%s table.isotope(%r)" % (tname, a_name), lambda: tab.isotope(a_name), (ValueError,), table=tname, input=a_name)
+    try:
+        dropped_table()
+    except Exception as e:  # noqa
+        fail("C08:sweep-raises", "the dropped-table history raised %s: %s" % (type(e).__name__, e), trace=traceback.format_exc()[-800:])
     # one object per key over everything visited: different keys never share an object
     for tname, tab in TABLES.items():
         seen = {}
